@@ -1539,6 +1539,29 @@ fn c13_items(tier: Tier) -> Vec<Vec<Piece>> {
             }
         }
     }
+    // integer operands at the edges of the 64-bit ranges, alone in every integer-mode host
+    for (hp, hs) in EXPR_HOSTS {
+        if hp.starts_with("%sysevalf") || hp.contains("sysfunc") || hp.starts_with("%syscall") {
+            continue;
+        }
+        for n in [9223372036854775807u64, 9223372036854775808, 18446744073709551615, 4294967296, 2147483648] {
+            for (lead, trail) in [("", ""), (" ", " ")] {
+                if !lead.is_empty() && hp.ends_with(' ') || !trail.is_empty() && hs.starts_with(' ') {
+                    continue;
+                }
+                let stat = hp.starts_with("%do") || hp.starts_with("%if");
+                let mut v = if stat { vec![other(hp)] } else { vec![other("%put "), other(hp)] };
+                v.push(gap(lead));
+                v.push(p(&n.to_string(), Kind::Int(n)));
+                v.push(gap(trail));
+                v.push(other(hs));
+                if !stat {
+                    v.push(other(";"));
+                }
+                items.push(v);
+            }
+        }
+    }
     // what directly follows the keyword that ends an expression (%then, %to, %by): every kind of
     // blank, a comment, a character that is neither blank nor part of a name - the look-ahead that
     // recognises the keyword must end it where the keyword lexer does, or the operand before it is
